@@ -124,8 +124,8 @@ fn fault_body<const NV: usize, const NA: usize>(fast_start: bool, audio: bool, a
     let r3 = w.write_video_sample_with_dts(1 << 40, 1 << 40, &[1u8], true);
     assert!(r3.is_err(), "writes after a (failed) finalize are refused");
     assert!(mp4h::sink(&w).calls == calls && mp4h::sink(&w).total == total, "no later call writes anything");
-    kani::cover!(failed && (total as usize) < rlen, "failure reached");
-    kani::cover!(!failed && calls > 0, "completed despite the fault");
+    crate::vcover!(failed && (total as usize) < rlen, "failure reached");
+    crate::vcover!(!failed && calls > 0, "completed despite the fault");
     core::mem::forget((w, r, r2, r3));
 }
 
@@ -222,7 +222,7 @@ pub fn c13_api_io_error() {
     let r2 = m.finish_in_place();
     assert!(r2.is_err(), "no second attempt");
     assert!(mp4h::sink(muxide::api::verif::writer(&m)).total == total, "nothing further is written");
-    kani::cover!(failed, "failure injected");
-    kani::cover!(!failed, "no failure");
+    crate::vcover!(failed, "failure injected");
+    crate::vcover!(!failed, "no failure");
     core::mem::forget((m, r0, r, r2));
 }
